@@ -497,6 +497,11 @@ def render_fn(s, loc, contract, opts, item, indent=""):
         body = splice_loops(s, loc["body_open"], loc["body_close"], opts.get("loops"), item, opts.get("places"))
         body = apply_replacements(body, opts.get("repls", []), item)
         body = apply_befores(body, opts.get("befores", []), item)
+        for a_, b_, note_ in opts.get("rewrites_all", []):
+            if a_ not in body:
+                raise AnchorLost("%s: expression %r not found" % (item.ident, a_))
+            body = body.replace(a_, b_)
+            item.rewrites.append({"old": a_, "new": b_, "note": "std-equivalent (all occurrences): " + note_})
         for recv in opts.get("desugars", []):
             body = desugar_option_map(body, recv, item)
         for bind, ty in opts.get("annotates", []):
@@ -766,6 +771,7 @@ class Gen:
         sigsub = []
         befores = []
         annotates = []
+        rewrites_all = []
         desugars = []
         places = {}
         anchor = None
@@ -832,6 +838,12 @@ class Gen:
                     note = " ".join(toks[1:])
                     i += 1
                     continue
+                if d == "rewrite_all":
+                    # //@rewrite_all <old expr> <new expr> <note...>: every occurrence (>= 1) of an std call is rewritten to
+                    # a specified stand-in (recorded as a std-equivalent rewrite)
+                    rewrites_all.append((toks[1], toks[2], " ".join(toks[3:])))
+                    i += 1
+                    continue
                 if d == "annotate":
                     # //@annotate <binding text> <Type>: adds `: Type` to a `let` binding (no executable token changes)
                     annotates.append((toks[1], toks[2]))
@@ -859,7 +871,7 @@ class Gen:
             i += 1
         for k in loops:
             loops[k]["text"] = "\n".join(loops[k].pop("_buf"))
-        return "\n".join(contract), {"loops": loops, "repls": repls, "sigsub": sigsub, "befores": befores, "annotates": annotates, "desugars": desugars,
+        return "\n".join(contract), {"loops": loops, "repls": repls, "sigsub": sigsub, "befores": befores, "annotates": annotates, "desugars": desugars, "rewrites_all": rewrites_all,
                                     "places": {k: "\n".join(v) for k, v in places.items()}}, i, term
 
     def vac(self, contract, ident=None):
